@@ -19,7 +19,12 @@ R2 comparison direction: `satisfies` may return a true value only when `self.cor
    `all(...)` over every disk of *other's* normalised storage, comparing the size of *self's* normalised disk
    with the *same mount point* using `>=`; a mount point missing in self raises (explicit `other - self` key
    test that raises, or a plain subscript).
-R3 normal form: `_normalize_storage` reduces `self.storage.values()` with `Storage.__add__`; `normalized()`
+R3 normal form: *every* result of `_normalize_storage` (all returns, bare returns and fall-through, enumerated on
+   the CFG, values followed through temporaries and conditional expressions) reduces `self.storage.values()` with
+   `Storage.__add__` -- the fold is what re-keys by mount point; accepted shortcuts are an empty map on paths a
+   non-empty `self.storage` cannot take and `self.storage` / a key-preserving copy on paths unreachable when
+   `self.is_normalized()` is false (guards folded under those witnesses); any other result (e.g. a fast path
+   guarded by the number of entries) is reported, never refused; `normalized()`
    goes through it and keeps cores/memory; `_reduce_storages` keys every entry by `disk.mount_point`;
    `is_normalized` is `all(key == disk.mount_point)` over `self.storage.items()`; no arithmetic/comparison
    method of `Hardware` (enumerated through the class table, merge operators `__or__/__ior__` excepted) reads
@@ -27,7 +32,10 @@ R3 normal form: `_normalize_storage` reduces `self.storage.values()` with `Stora
 
 Not decided (reported as violations rather than interpreted): a shortcut whose emptiness test uses a formulation the
 guard folding does not know (anything but truthiness / comparison with 0 / len() / `any(d.size ...)` over the
-operand's normalised storage, possibly through temporaries) is reported although it may be behaviour-preserving.
+operand's normalised storage, possibly through temporaries) is reported although it may be behaviour-preserving;
+likewise a `_normalize_storage` shortcut whose guard establishes the normal form by other means than
+`self.is_normalized()` (e.g. an inline `all(k == d.mount_point ...)`), or that rebuilds the map by a hand-written loop
+instead of `_reduce_storages`, is reported.
 
 Left out: the algebraic laws over fractional values (need symbolic evaluation) and `__or__/__ior__` semantics
 (documented by the class as key-preserving merge, not part of the property).
@@ -336,10 +344,14 @@ def _shortcut_results(ctx, f, name: str, want_op, me: str, other: str, ctors, ot
             continue
         dropped = other if kept == me else me
         ids = set(g.ids_of(r))
+        site = set(g.node_containing(o) or ()) or ids
         lost = []
         for field in HW_FIELDS:
             atom = _positive_atom(f, dropped, field)
-            if guarded_reach(g, atom) & ids and _may_select(r.value, o, atom):
+            # the value flows from where it is computed (the return itself, or the assignment of a temporary) to the
+            # return: it is a possible result only if both are reachable under the witness
+            live = guarded_reach(g, atom)
+            if live & ids and live & site and _may_select(r.value, o, atom):
                 lost.append(field)
         if lost:
             bad.append(f"the path returning `{text}` is taken although `{dropped}` may hold a positive amount of {', '.join(lost)}: "
@@ -645,18 +657,142 @@ def r2(ctx):
 # =========================================================================== R3
 
 
-def r3(ctx):
+def _not_normal_atom(f, me: str):
+    """Guard atoms evaluated under the witness `me.is_normalized() is false` (some key is not its disk's mount
+    point); everything else stays unknown."""
+
+    def atom(e, depth: int = 4):
+        if isinstance(e, ast.Name):
+            defs = [o for o in origins(f, e) if o is not e]
+            return fold3(defs[0], lambda x: atom(x, depth - 1)) if depth > 0 and len(defs) == 1 else None
+        e = strip_await(e)
+        if isinstance(e, ast.Call) and isinstance(e.func, ast.Attribute) and e.func.attr == "is_normalized" and dotted(e.func.value) == me and not e.args and not e.keywords:
+            return False
+        return None
+
+    return atom
+
+
+def _nonempty_atom(f, me: str):
+    """Guard atoms evaluated under the witness `me.storage holds at least one entry` (truthiness of the map or of
+    a view / copy of it, `len(...)` compared with 0 or 1, comparison with an empty map)."""
+
+    def is_map(e) -> bool:
+        e = strip_await(e)
+        if isinstance(e, ast.Call) and isinstance(e.func, ast.Name) and e.func.id in ("len", "bool") and len(e.args) == 1 and not e.keywords:
+            return is_map(e.args[0])
+        return _operand(f, e) == (me, False)
+
+    def is_len(e) -> bool:
+        e = strip_await(e)
+        return isinstance(e, ast.Call) and isinstance(e.func, ast.Name) and e.func.id == "len" and len(e.args) == 1 and not e.keywords and is_map(e.args[0])
+
+    def atom(e, depth: int = 4):
+        if isinstance(e, ast.Name) and not is_map(e):
+            defs = [o for o in origins(f, e) if o is not e]
+            return fold3(defs[0], lambda x: atom(x, depth - 1)) if depth > 0 and len(defs) == 1 else None
+        if is_map(e):
+            return True
+        cp = compare_pair(e)
+        if cp is not None and type(cp[1]) in _FLIP:
+            left, op, right = cp[0], type(cp[1]), cp[2]
+            if not is_map(left) and is_map(right):
+                left, right, op = right, left, _FLIP[op]
+            if is_map(left) and not is_len(left) and _is_zero(right, "storage") and not isinstance(right, ast.Constant) and op in (ast.Eq, ast.NotEq):
+                return op is ast.NotEq
+            if is_len(left) and isinstance(right, ast.Constant) and right.value in (0, 1) and not isinstance(right.value, bool):
+                c = right.value
+                fn = {ast.Eq: lambda n: n == c, ast.NotEq: lambda n: n != c, ast.Gt: lambda n: n > c, ast.GtE: lambda n: n >= c,
+                      ast.Lt: lambda n: n < c, ast.LtE: lambda n: n <= c}[op]
+                vals = {fn(n) for n in (1, 2, 3)}  # every size the witness allows (the predicates are monotone beyond 2)
+                return vals.pop() if len(vals) == 1 else None
+        return None
+
+    return atom
+
+
+def _storage_copy(f, e, me: str, depth: int = 5) -> bool:
+    """Is `e` the map `me.storage` itself or a key-preserving copy of it (`dict(X)`, `X.copy()`, `copy.copy(X)`,
+    `dict(X.items())`, `{k: v for k, v in X.items()}`, `{**X}`), locals followed?"""
+    e = strip_await(e)
+    if depth <= 0:
+        return False
+    if isinstance(e, ast.NamedExpr):
+        return _storage_copy(f, e.value, me, depth - 1)
+    if isinstance(e, ast.Name):
+        defs = [o for o in origins(f, e) if o is not e]
+        return bool(defs) and all(_storage_copy(f, o, me, depth - 1) for o in defs)
+    if isinstance(e, ast.Attribute):
+        return e.attr == "storage" and dotted(e.value) == me
+    if isinstance(e, ast.Dict):
+        return len(e.keys) == 1 and e.keys[0] is None and _storage_copy(f, e.values[0], me, depth - 1)
+
+    def items_of(x) -> bool:
+        x = strip_await(x)
+        return isinstance(x, ast.Call) and isinstance(x.func, ast.Attribute) and x.func.attr == "items" and not x.args and _storage_copy(f, x.func.value, me, depth - 1)
+
+    if isinstance(e, ast.DictComp):
+        gen = e.generators[0]
+        return (len(e.generators) == 1 and not gen.ifs and items_of(gen.iter) and isinstance(gen.target, ast.Tuple) and len(gen.target.elts) == 2
+                and all(isinstance(x, ast.Name) for x in gen.target.elts) and dotted(e.key) == gen.target.elts[0].id and dotted(e.value) == gen.target.elts[1].id)
+    if isinstance(e, ast.Call) and not e.keywords:
+        fn = e.func
+        if isinstance(fn, ast.Attribute) and fn.attr == "copy" and not e.args:
+            return _storage_copy(f, fn.value, me, depth - 1)
+        if len(e.args) == 1 and ((isinstance(fn, ast.Name) and fn.id == "dict") or (dotted(fn) or "") in ("copy.copy", "copy.deepcopy", "copy", "deepcopy")):
+            return _storage_copy(f, e.args[0], me, depth - 1) or (isinstance(fn, ast.Name) and fn.id == "dict" and items_of(e.args[0]))
+    return False
+
+
+def _normalize_storage_results(ctx):
+    """Normal form over *all* results of Hardware._normalize_storage (every return, bare return and fall-through,
+    enumerated on the CFG): each result is `_reduce_storages(self.storage.values(), Storage.__add__)` -- the fold is
+    what re-keys by mount point and aggregates.  Two shortcuts are interpreted instead of reported: an empty map on
+    paths that a non-empty `self.storage` cannot take, and `self.storage` itself / a key-preserving copy on paths
+    that are unreachable when `self.is_normalized()` is false (guards folded on the CFG under those witnesses).  Any
+    other result -- in particular a fast path guarded by something that does not imply the normal form, such as the
+    number of entries -- skips the re-keying and is a violation of the clause, not an uninterpretable shape."""
     p = ctx.prog
-    cls = p.cls(HW)
-    # _normalize_storage
     f = p.func(f"{HW}._normalize_storage")
+    g = f.cfg
+    ctx.require(len(f.params) >= 1, "C14.R3: _normalize_storage lost its receiver parameter")
     me = f.params[0]
-    rets = [n for n in f.body_nodes() if isinstance(n, ast.Return) and n.value is not None]
-    ctx.require(len(rets) == 1, "C14.R3: _normalize_storage must have one return")
-    rc = _reduce_call(ctx, f, rets[0].value)
-    ctx.ob("R3", "_normalize_storage is a _reduce_storages fold", rc is not None, func=f, node=rets[0], instance="normalize:reduce",
-           message="_normalize_storage no longer folds the storages with _reduce_storages")
-    if rc is not None:
+    folds, others = _result_returns(ctx, f, RED)
+    bad: list[str] = []
+    witness: list[str] = []
+    node = None
+    n_short = 0
+    for r, o in others:
+        if r is None or o is None:
+            bad.append("a path ends with a bare return / falls off the end (result None)")
+            node = node or r
+            continue
+        text = _norm(o)
+        ids = set(g.ids_of(r))
+        if _is_zero(o, "storage") and not isinstance(o, ast.Constant):
+            atom, why = _nonempty_atom(f, me), f"although `{me}.storage` may hold entries: they are dropped from the normal form"
+        elif _storage_copy(f, o, me):
+            atom, why = _not_normal_atom(f, me), (f"although `{me}.is_normalized()` may be false on that path: the entries keep their keys instead of being "
+                                                   f"re-keyed by mount point and aggregated")
+        else:
+            bad.append(f"a path returns `{text}`, which is not a _reduce_storages fold of {me}.storage.values()")
+            node = node or r
+            continue
+        # the value flows from where it is computed (the return itself, or the assignment of a temporary) to the
+        # return: it is a possible result only if both are reachable under the witness
+        live = guarded_reach(g, atom)
+        site = set(g.node_containing(o) or ()) or ids
+        if live & ids and live & site and _may_select(r.value, o, atom):
+            bad.append(f"the path returning `{text}` is taken {why}")
+            node = node or r
+            pth = g.path(g.entry, ids)
+            witness.extend(g.describe(pth) if pth else [])
+        else:
+            n_short += 1
+    ctx.ob("R3", f"_normalize_storage: every result is a _reduce_storages fold keyed by mount point ({len(folds)} fold(s), {n_short} accepted shortcut(s))",
+           not bad, func=f, node=node if node is not None else f.node, instance="normalize:reduce",
+           message="_normalize_storage: " + "; ".join(bad), witness=witness)
+    for r, rc in folds:
         ra = bind_args(rc, p.func(RED).node)
         ops = [_operand(f, x) for x in _pieces(f, ra["storages"])] if "storages" in ra else []
         ctx.ob("R3", "_normalize_storage folds every storage of self", ops == [(me, False)], func=f, node=rc, instance="normalize:source",
@@ -664,6 +800,13 @@ def r3(ctx):
         kind, text = _op_kind(p, f, ra["operator"]) if "operator" in ra else (None, "<missing>")
         ctx.ob("R3", "_normalize_storage sums storages of one mount point", kind == "add", func=f, node=rc, instance="normalize:op",
                message=f"_normalize_storage combines storages with `{text}` instead of Storage.__add__ (per-mount totals are not preserved)")
+
+
+def r3(ctx):
+    p = ctx.prog
+    cls = p.cls(HW)
+    # _normalize_storage
+    _normalize_storage_results(ctx)
     # normalized()
     f = p.func(f"{HW}.normalized")
     me = f.params[0]
@@ -671,15 +814,7 @@ def r3(ctx):
     ctors, others = _result_returns(ctx, f, HW)
     # `self` (or a copy) is its own normal form exactly when is_normalized() holds: such a shortcut is accepted when
     # the return is unreachable under the witness `self.is_normalized() is false`; any other result is a violation
-    def _not_normal(e, _me=me):
-        if isinstance(e, ast.Name):
-            defs = [o for o in origins(f, e) if o is not e]
-            return fold3(defs[0], _not_normal) if len(defs) == 1 else None
-        if isinstance(e, ast.Call) and isinstance(e.func, ast.Attribute) and e.func.attr == "is_normalized" and dotted(e.func.value) == _me and not e.args:
-            return False
-        return None
-
-    live = guarded_reach(f.cfg, _not_normal)
+    live = guarded_reach(f.cfg, _not_normal_atom(f, me))
     others = [(r, o) for r, o in others
               if not (r is not None and o is not None and _unchanged_operand(o, (me,)) == me and not isinstance(r.value, ast.IfExp) and not (set(f.cfg.ids_of(r)) & live))]
     _report_other_results(ctx, "R3", f, others, "normalized()", "Hardware(self.cores, self.memory, self._normalize_storage())")
@@ -749,6 +884,7 @@ FLOORS = {"R1": 23, "R2": 9, "R3": 12}
 
 HADD, HSUB, SAT = f"{HW}.__add__", f"{HW}.__sub__", f"{HW}.satisfies"
 SADD, SSUB = f"{ST}.__add__", f"{ST}.__sub__"
+NORM = f"{HW}._normalize_storage"
 
 VARIANTS = [
     # ---- R1
@@ -774,6 +910,8 @@ VARIANTS = [
       "if not other.cores and (not other._normalize_storage()):\n        return self.normalized()\n    return Hardware(self.cores + other.cores,", "R1"),
     V("__sub__ returns the subtrahend when self is empty", FILE, HSUB, "return Hardware(self.cores - other.cores,",
       "if not (self.cores or self.memory or self._normalize_storage()):\n        return other.normalized()\n    return Hardware(self.cores - other.cores,", "R1"),
+    V("__sub__ fast path assigned to a temporary forgets the storage", FILE, HSUB, "return Hardware(self.cores - other.cores, self.memory - other.memory, _reduce_storages((*self._normalize_storage().values(), *other._normalize_storage().values()), Storage.__sub__.__call__))",
+      "if other.cores or other.memory:\n        res = Hardware(self.cores - other.cores, self.memory - other.memory, _reduce_storages((*self._normalize_storage().values(), *other._normalize_storage().values()), Storage.__sub__.__call__))\n    else:\n        res = self.normalized()\n    return res", "R1"),
     V("__sub__ conditional expression forgets the storage", FILE, HSUB, "return Hardware(self.cores - other.cores,",
       "return self.normalized() if not (other.cores or other.memory) else Hardware(self.cores - other.cores,", "R1"),
     V("__sub__ delegates to an uninterpreted helper on one path", FILE, HSUB, "return Hardware(self.cores - other.cores,",
@@ -801,7 +939,30 @@ VARIANTS = [
     V("new comparison operator on raw storage", FILE, HW, "def is_normalized(self)", "def __ge__(self, other):\n        return all((self.storage[k].size >= d.size for k, d in other.storage.items()))\n\n    def is_normalized(self)", "R3"),
     V("normalized returns self unconditionally", FILE, f"{HW}.normalized", "return Hardware(cores=self.cores,",
       "if self.cores:\n        return self\n    return Hardware(cores=self.cores,", "R3"),
+    V("_normalize_storage fast path on a single entry skips the re-keying (seeded C14/2)", FILE, NORM, "return _reduce_storages(",
+      "if len(self.storage) == 1:\n        return dict(self.storage)\n    return _reduce_storages(", "R3"),
+    V("_normalize_storage returns the raw map when it is NOT in normal form", FILE, NORM, "return _reduce_storages(",
+      "if not self.is_normalized():\n        return self.storage\n    return _reduce_storages(", "R3"),
+    V("_normalize_storage conditional expression keeps a small raw map", FILE, NORM, "return _reduce_storages(",
+      "return self.storage.copy() if len(self.storage) < 2 else _reduce_storages(", "R3"),
+    V("_normalize_storage falls off the end", FILE, NORM, "return _reduce_storages(", "if self.storage:\n        return _reduce_storages(", "R3"),
+    V("_normalize_storage drops disks of size zero", FILE, NORM, "return _reduce_storages(",
+      "if not any((d.size for d in self.storage.values())):\n        return {}\n    return _reduce_storages(", "R3"),
+    V("_normalize_storage fast path through a temporary keyed by bind", FILE, NORM, "return _reduce_storages(",
+      "quick = {d.bind: d for d in self.storage.values()}\n    if self.is_normalized():\n        return quick\n    return _reduce_storages(", "R3"),
     # ---- benign
+    V("_normalize_storage returns a copy when already in normal form", FILE, NORM, "return _reduce_storages(",
+      "if self.is_normalized():\n        return dict(self.storage)\n    return _reduce_storages(", None),
+    V("_normalize_storage: normal-form shortcut through temporaries, inverted test, single return", FILE, NORM,
+      "return _reduce_storages(self.storage.values(), Storage.__add__.__call__)",
+      "normal = self.is_normalized()\n    if not normal:\n        res = _reduce_storages(self.storage.values(), Storage.__add__.__call__)\n    else:\n        res = {k: v for k, v in self.storage.items()}\n    return res", None),
+    V("_normalize_storage: conditional expression on the normal form", FILE, NORM, "return _reduce_storages(",
+      "return self.storage.copy() if self.is_normalized() else _reduce_storages(", None),
+    V("_normalize_storage: empty map shortcut", FILE, NORM, "return _reduce_storages(", "if not self.storage:\n        return {}\n    return _reduce_storages(", None),
+    V("_normalize_storage: empty map shortcut spelled with len", FILE, NORM, "return _reduce_storages(",
+      "if len(self.storage) == 0:\n        return dict()\n    return _reduce_storages(", None),
+    V("_normalize_storage: two folds on the branches of an unrelated test", FILE, NORM, "return _reduce_storages(self.storage.values(), Storage.__add__.__call__)",
+      "if len(self.storage) > 8:\n        disks = list(self.storage.values())\n        return _reduce_storages(disks, Storage.__add__.__call__)\n    return _reduce_storages(self.storage.values(), lambda a, b: a + b)", None),
     V("__sub__ fast path on a completely empty subtrahend", FILE, HSUB, "return Hardware(self.cores - other.cores,",
       "if not (other.cores or other.memory or other._normalize_storage()):\n        return self.normalized()\n    return Hardware(self.cores - other.cores,", None),
     V("__sub__ fast path, emptiness in a temporary with comparisons", FILE, HSUB, "return Hardware(self.cores - other.cores,",
@@ -812,6 +973,8 @@ VARIANTS = [
       "if not (self.cores or self.memory or self._normalize_storage()):\n        return other.normalized()\n    return Hardware(self.cores + other.cores,", None),
     V("__sub__ conditional expression on a completely empty subtrahend", FILE, HSUB, "return Hardware(self.cores - other.cores,",
       "return self.normalized() if not (other.cores or other.memory or other._normalize_storage()) else Hardware(self.cores - other.cores,", None),
+    V("__sub__ fast path assigned to a temporary, single return", FILE, HSUB, "return Hardware(self.cores - other.cores, self.memory - other.memory, _reduce_storages((*self._normalize_storage().values(), *other._normalize_storage().values()), Storage.__sub__.__call__))",
+      "if other.cores or other.memory or other._normalize_storage():\n        res = Hardware(self.cores - other.cores, self.memory - other.memory, _reduce_storages((*self._normalize_storage().values(), *other._normalize_storage().values()), Storage.__sub__.__call__))\n    else:\n        res = self.normalized()\n    return res", None),
     V("normalized returns a copy when already in normal form", FILE, f"{HW}.normalized", "return Hardware(cores=self.cores,",
       "if self.is_normalized():\n        return copy.deepcopy(self)\n    return Hardware(cores=self.cores,", None),
     V("keyword arguments in __add__", FILE, HADD, "return Hardware(self.cores + other.cores, self.memory + other.memory, _reduce_storages(",
